@@ -302,7 +302,7 @@ func TestProp(t *testing.T) {
 	pbt.Main(t, pbt.Spec{
 		ID: "C27",
 		Rule: "part model: 0-120 operations (about 30 on average) (announce with drawn address/port/flag, GetPeers(n) with n from 0 to beyond the population, clock advance by 1s..2*TTL, one entry-cleanup pass, one group-cleanup pass) over 2 torrents x 5 peers on a harness clock, applied to the real LocalStore and to a model of the latest announcement per (torrent, peer); every lookup must return <= n distinct peers that announced the torrent, each with the fields of its latest announcement, and a lookup with n >= number of peers that ever announced must contain every announcement younger than the TTL (older ones may or may not be returned). " +
-			"part stress: rounds of concurrent announcements (kept-alive peers every round, churn peers in random rounds, clock advanced < TTL per round) race with goroutines looping both cleanup passes and a reader; invariants: after each round a full lookup returns every announcement younger than TTL exactly as announced, concurrent lookups are distinct, <= n, field-consistent, never go back to an older announcement, and always contain the kept-alive peers. " +
+			"part stress: rounds of concurrent announcements over 2-6 torrents (kept-alive peers announce torrent 0 every round, churn peers announce in random rounds, clock advanced by 1/8..7/8 TTL per round while announcers are idle) race with goroutines looping both cleanup passes (free-running, or parked during the advance and released together with the announcers, or settled first) and a reader; invariants: after each round a full lookup of every torrent returns every announcement younger than TTL exactly as announced, concurrent lookups are distinct, <= n, field-consistent, never go back to an older announcement, and always contain the kept-alive peers. " +
 			"non-trivial (model) = a full lookup with a fresh peer and a cleanup pass that ran with an expired entry or with a renewed entry whose first announcement is older than TTL; (stress) = in at least one round an entry-cleanup pass completed while expired entries were being re-announced; distinct by case hash; evaluations (stress) = rounds",
 		Assumptions: []string{
 			"reference model written from the property statement; expired entries may be returned or dropped (not asserted either way); nothing asserted at age == TTL exactly",
@@ -310,7 +310,7 @@ func TestProp(t *testing.T) {
 			"stress part samples Go scheduler interleavings (not owned, not shrinkable); weaker than the model part",
 		},
 		Parts: []pbt.Part{
-			pbt.NewPart("model", 6, genSeq, runSeq),
+			pbt.NewPart("model", 12, genSeq, runSeq),
 			pbt.NewPart("stress", 1, genStress, runStress),
 		},
 	})
